@@ -104,6 +104,20 @@ def _make_fspec():
 fspec = _make_fspec()
 
 
+def _make_lift2():
+    from scenic.core.distributions import distributionFunction
+
+    @distributionFunction
+    def lift2(a, b):
+        """A user function lifted over random arguments."""
+        return 10 * a + b
+
+    return lift2
+
+
+lift2 = _make_lift2()
+
+
 def grej(k):
     """Guard helper: a guard whose evaluation raises a rejection when table k is false."""
     from scenic.core.distributions import RejectionException
